@@ -5,7 +5,7 @@ from hypothesis import strategies as st
 from ..core import Clause, Discard, Violation, call, require
 from ..oracles import stft_ref
 from ..strategies import (bank_specs, build_bank, build_computer, compositions, cut_lists, gabor_degenerate,
-                          gammatone_degenerate, make_signal, si_specs, signal_specs, stft_specs)
+                          gammatone_degenerate, make_signal, si_specs, signal_specs, stft_specs, SIGNAL_KINDS)
 
 PROPERTY = "C01"
 LEVEL = "exploration"
@@ -81,7 +81,15 @@ def _compare(spec, dt, outs, full, what):
         require(o.dtype == DTYPES[dt], "{}: streamed block dtype {} for {} chunks", what, o.dtype, dt)
     require(full.dtype == DTYPES[dt], "{}: compute_full dtype {} for a {} signal", what, full.dtype, dt)
     rtol, afrac = _tols(spec, dt)
-    msg = stft_ref.compare_features(got, full, spec["use_log"], rtol=rtol, atol_frac=afrac)
+    if spec["kind"] == "stft":
+        # both routes transform every frame on its own: each frame is judged at its own level (largest coefficient of the row)
+        with np.errstate(over="ignore"):
+            lin = np.exp(full.astype(np.float64)) if spec["use_log"] else np.abs(full.astype(np.float64))
+        rows = np.max(lin, axis=1) if full.size else np.zeros(0)
+        msg = stft_ref.compare_features_per_frame(got, full, spec["use_log"], rows, rtol=rtol, afrac=max(afrac, 1e-9 if dt == "f64" else 1e-5),
+                                                  floor=1e-300 if dt == "f64" else 1e-35)
+    else:
+        msg = stft_ref.compare_features(got, full, spec["use_log"], rtol=rtol, atol_frac=afrac)
     require(msg is None, "{}: streaming differs from compute_full: {}", what, msg)
 
 
@@ -286,10 +294,18 @@ def _stft_cases(draw):
     comp = draw(stft_specs(max_len=64))
     L, S = comp["L"], comp["S"]
     n = draw(_n_strategy(L, S, 6 * L))
+    cuts = None
+    if draw(st.integers(0, 17)) == 0:
+        # a size jump inside one stream: a small chunk, then one far beyond anything a work buffer was sized for, then
+        # the rest (buffers that grow on demand are rebuilt at that moment)
+        n = draw(st.sampled_from([3000, 3000, 5000]))
+        a = draw(st.integers(1, 2 * L))
+        b = draw(st.integers(a + 1500, n - 1))
+        cuts = [a, b] + ([draw(st.integers(b, n))] if draw(st.booleans()) else [])
     return {
         "comp": comp,
-        "sig": draw(signal_specs(st.just(n))),
-        "cuts": draw(cut_lists(n, L, S)),
+        "sig": draw(signal_specs(st.just(n), SIGNAL_KINDS + ["very_loud_quiet"])),
+        "cuts": cuts if cuts is not None else draw(cut_lists(n, L, S)),
         "dtype": draw(st.sampled_from(["f64", "f64", "f64", "f32"])),
         "prior": draw(_priors(L, S)),
         "packet_buffer": draw(st.sampled_from([False, False, True])),
